@@ -1,6 +1,7 @@
 """C10 - configuration is applied faithfully; erroneous configuration is rejected whole"""
 from sa.core import rule, prop_info
 from sa.lib import *  # noqa: F401,F403
+from sa.lib import origins, local_assigns  # noqa
 from sa.lib import (attr_stores, func_calls, enclosing_tries, handler_reraises, handler_type_names, loop_anchor,
                     compare_ops, ReachingDefs)
 from sa.model import AnchorMissing
@@ -207,3 +208,28 @@ def configured_writes_in_poll_thread(ctx):
     """shared with C15.R4: configured values are written for every module of the poll thread before reads and polls"""
     from sa.rules import c15
     c15.poll_thread_startup(ctx)
+
+
+@rule('C10.R7', min_instances=2)
+def wrappers_use_the_instance_parameter(ctx):
+    """the generated read / write wrappers take the Parameter (and with it the configured datatype limits) from the instance
+    (self.parameters / self.accessibles), never from an object bound at class creation (default argument / closure)"""
+    m = ctx.m
+    n = 0
+    for kind, lst in roles.wrappers(m).items():
+        for w in lst:
+            ctx.analysed(w)
+            dflt_names = [a.arg for a in w.node.args.args][len(w.node.args.args) - len(w.node.args.defaults):]
+            for x in body_walk(w.node):
+                if isinstance(x, ast.Attribute) and x.attr == 'datatype' and isinstance(x.ctx, ast.Load):
+                    n += 1
+                    base = x.value
+                    o = [base] + (origins(base, w.node) if isinstance(base, ast.Name) else [])
+                    inst = any(src(b).startswith(('self.parameters[', 'self.accessibles[')) for b in o)
+                    closure = isinstance(base, ast.Name) and (base.id in dflt_names or not local_assigns(w.node, base.id))
+                    ctx.check(inst and not closure, f'{w.qualname}:datatype of the instance parameter', x, f'`{src(x)}` comes from the instance',
+                              f'`{src(x)}` is the datatype of the class level Parameter bound when the class was created: limits / unit overridden in the '
+                              'configuration of one instance are ignored by the wrapper (a value outside the configured limits reaches the driver, one '
+                              'inside the widened limits is refused)', w)
+    if not n:
+        raise AnchorMissing('no datatype use found in the generated wrappers')
